@@ -55,3 +55,45 @@ def run(scenario, release=False, timeout=60, **kw):
             k, v = ln.split('=', 1)
             out[k] = v
     return out, lines, p.returncode, p.stderr
+
+
+def build_ext(name, exe_name):
+    """a second, small replay crate kept under /verif/<name> (e.g. ractor built with another feature set)"""
+    key = (REPO, name)
+    if key in _built:
+        return _built[key]
+    tag = hashlib.sha256(REPO.encode()).hexdigest()[:8]
+    d = os.path.join(BUILD, '%s-%s' % (name, tag))
+    os.makedirs(os.path.join(d, 'src'), exist_ok=True)
+    for f in os.listdir(os.path.join(VERIF, name, 'src')):
+        src = os.path.join(VERIF, name, 'src', f)
+        dst = os.path.join(d, 'src', f)
+        if not os.path.exists(dst) or open(src, 'rb').read() != open(dst, 'rb').read():
+            shutil.copy(src, dst)
+    toml = open(os.path.join(VERIF, name, 'Cargo.toml.in')).read().replace('@REPO@', REPO)
+    if not os.path.exists(os.path.join(d, 'Cargo.toml')) or open(os.path.join(d, 'Cargo.toml')).read() != toml:
+        open(os.path.join(d, 'Cargo.toml'), 'w').write(toml)
+    if not os.path.exists(os.path.join(d, 'Cargo.lock')):
+        shutil.copy(os.path.join(REPO, 'Cargo.lock'), os.path.join(d, 'Cargo.lock'))
+    env = dict(os.environ)
+    env['CARGO_NET_OFFLINE'] = 'true'
+    env['RUSTFLAGS'] = '--cfg ' + GUARD
+    env['CARGO_TARGET_DIR'] = os.path.join(BUILD, 'target-' + name)
+    p = subprocess.run(['cargo', 'build', '--offline', '--quiet'], cwd=d, env=env, capture_output=True, text=True)
+    if p.returncode != 0:
+        raise RuntimeError('%s build failed:\n' % name + p.stderr[-4000:])
+    exe = os.path.join(BUILD, 'target-' + name, 'debug', exe_name)
+    _built[key] = exe
+    return exe
+
+
+def run_ext(name, exe_name, scenario, timeout=60, **kw):
+    exe = build_ext(name, exe_name)
+    args = [exe, scenario] + ['%s=%s' % (k, v) for k, v in kw.items()]
+    p = subprocess.run(args, capture_output=True, text=True, timeout=timeout)
+    out = {}
+    for ln in p.stdout.split('\n'):
+        if '=' in ln:
+            k, v = ln.split('=', 1)
+            out[k] = v
+    return out, p.returncode, p.stderr
